@@ -43,6 +43,15 @@ impl OrphanBroker {
             let descendants: Vec<LonelyBlockHash> = self
                 .orphan_blocks_broker
                 .remove_blocks_by_parent(&leader_hash);
+            #[cfg(ckb_verif)]
+            crate::verif::emit(
+                "Release",
+                &format!(
+                    "\"l\":{},\"kind\":\"invalid\",\"rel\":{}",
+                    crate::verif::h(&leader_hash),
+                    crate::verif::list(descendants.iter().map(|d| d.hash()))
+                ),
+            );
             for descendant in descendants {
                 self.process_invalid_block(descendant);
             }
@@ -55,12 +64,26 @@ impl OrphanBroker {
                 "orphan leader: {} not stored {:?} and not in is_pending_verify: {}",
                 leader_hash, leader_status, leader_is_pending_verify
             );
+            #[cfg(ckb_verif)]
+            crate::verif::emit(
+                "Release",
+                &format!("\"l\":{},\"kind\":\"none\",\"rel\":[]", crate::verif::h(&leader_hash)),
+            );
             return;
         }
 
         let descendants: Vec<LonelyBlockHash> = self
             .orphan_blocks_broker
             .remove_blocks_by_parent(&leader_hash);
+        #[cfg(ckb_verif)]
+        crate::verif::emit(
+            "Release",
+            &format!(
+                "\"l\":{},\"kind\":\"accept\",\"rel\":{}",
+                crate::verif::h(&leader_hash),
+                crate::verif::list(descendants.iter().map(|d| d.hash()))
+            ),
+        );
         if descendants.is_empty() {
             error!(
                 "leader {} does not have any descendants, this shouldn't happen",
@@ -116,10 +139,25 @@ impl OrphanBroker {
                 parent_hash, parent_status, parent_is_pending_verify, block_number, block_hash,
             );
             self.process_descendant(lonely_block);
+            #[cfg(ckb_verif)]
+            crate::verif::emit(
+                "Broker",
+                &format!("\"b\":{},\"dec\":\"pending\"", crate::verif::h(&block_hash)),
+            );
         } else if parent_status.eq(&BlockStatus::BLOCK_INVALID) {
             self.process_invalid_block(lonely_block);
+            #[cfg(ckb_verif)]
+            crate::verif::emit(
+                "Broker",
+                &format!("\"b\":{},\"dec\":\"invalid\"", crate::verif::h(&block_hash)),
+            );
         } else {
             self.orphan_blocks_broker.insert(lonely_block);
+            #[cfg(ckb_verif)]
+            crate::verif::emit(
+                "Broker",
+                &format!("\"b\":{},\"dec\":\"orphan\"", crate::verif::h(&block_hash)),
+            );
         }
 
         self.search_orphan_leaders();
